@@ -61,7 +61,8 @@ func (e *eng) rules() {
 			e.s.Bad("O5c", key, e.posM["growStack"], "growStack must have one growing and one non-growing path")
 		} else {
 			c := keep.conds[0]
-			if c == "!>=((SIZE+SP),len(ST))" || c == "!>((SIZE+SP),len(ST))" || c == "<((SIZE+SP),len(ST))" || c == "<=((SIZE+SP),len(ST))" {
+			// kept only when sp+size < len (or <=: one slot of slack either way is room enough)
+			if cc := absint.CanonCmp(c); cc == "<((SIZE+SP),len(ST))" || cc == "!<(len(ST),(SIZE+SP))" {
 				e.s.OK("O5c", key, e.posM["growStack"], "the stack is kept only when "+c)
 			} else {
 				e.s.Bad("O5c", key, e.posM["growStack"], "the stack is left alone under condition "+c+"; it may only be left alone when sp+size is below len(stack)")
@@ -141,7 +142,14 @@ func (e *eng) rules() {
 		if ef.fields["fp"] != "append(FP,slice[(-ARGSCNT+SP),"+newSP+"])" {
 			problems = append(problems, "fp becomes "+short(ef.fields["fp"])+", expected append(fp, new sp - localCnt, new sp): (frame start, locals end) in that order")
 		}
-		if len(ef.conds) == 0 || !strings.Contains(ef.conds[0], "("+newSP+",len(ST))") {
+		grows := false
+		for _, c := range ef.conds {
+			// the growth test compares the new stack pointer with the stack length, in either order
+			if strings.Contains(c, newSP) && strings.Contains(c, "len(ST)") {
+				grows = true
+			}
+		}
+		if !grows {
 			problems = append(problems, "no growth request for localCnt-argsCnt slots before the locals are written")
 		}
 		// every store: nil, inside [sp, new sp), into the final stack
@@ -320,7 +328,7 @@ func (e *eng) cloneEffects(withReuse bool) []cloneEffect {
 			if !c.B {
 				k = "!" + k
 			}
-			ce.conds = append(ce.conds, k)
+			ce.conds = append(ce.conds, absint.CanonCmp(k))
 		}
 		if end != nil {
 			ce.end = end.Error()
